@@ -29,7 +29,8 @@ func (propC18) ID() string { return "C18" }
 // cases plus two that collide with default functions (the default, added first, must win)
 var c18FnNames = []string{"Foo", "FOO", "foo", "bar_1", "Bar_1", "Max", "PI", "Ticks", "sum", "Array"}
 
-var c18Names = []string{"a", "A", "b", "Bee", "bEE", "x1", "X1", "_v", "total", "TOTAL", "Total"}
+var c18Names = []string{"a", "A", "b", "Bee", "bEE", "x1", "X1", "_v", "total", "TOTAL", "Total",
+	"xⱥ", "XȺ", "nɐ", "NⱯ", "r%d", "R%D", "p$1", "é", "É"}
 
 func (propC18) Gen(r *Rand) *Plan {
 	p := &Plan{}
@@ -44,7 +45,9 @@ func (propC18) Gen(r *Rand) *Plan {
 		for i := 0; i < n; i++ {
 			name := r.Pick(c18Names)
 			v := GenValue(r, r.Pick([]string{"int", "str", "bool"}))
-			switch r.Weighted([]int{8, 3, 2, 4, 4, 3, 3, 3, 1, 1, 2}) {
+			switch r.Weighted([]int{8, 3, 2, 4, 4, 3, 3, 3, 1, 1, 2, 2}) {
+			case 11:
+				ops = append(ops, Op{Op: "mutvalue", S: name, V: &v})
 			case 0:
 				ops = append(ops, Op{Op: "add", S: name, V: &v})
 			case 1:
@@ -70,6 +73,7 @@ func (propC18) Gen(r *Rand) *Plan {
 			}
 		}
 		p.Tasks = []TaskPlan{{Ops: ops}}
+		p.Config = map[string]string{"obs": fmt.Sprint(r.ObsStride())}
 	case 2:
 		p.Scenario = "calc"
 		n := r.Range(2, 12*r.Size())
@@ -159,7 +163,7 @@ func c18GenSetExpr(r *Rand) Op {
 				parts = append(parts, fmt.Sprint(r.Intn(9)))
 			case 1:
 				// quoted identifier: a variable whose name needs quoting
-				n := r.Pick([]string{"my var", "x-y", "Total"})
+				n := r.Pick([]string{"my var", "x-y", "Total", "rate%d", "a%sb", "x%%y", "p$1", "tⱥx"})
 				if !seen[strings.ToUpper(n)] {
 					seen[strings.ToUpper(n)] = true
 					names = append(names, n)
@@ -241,7 +245,7 @@ func (propC18) Exec(p *Plan, x *Ctx) *Outcome {
 	var body func()
 	switch p.Scenario {
 	case "varcoll", "funccoll":
-		body = func() { changes = c18Collections(p.Scenario, ops, run, out) }
+		body = func() { changes = c18Collections(p.Scenario, ops, run, out, p.Stride()) }
 	case "tmpl":
 		body = func() { changes = c18Template(ops, run, out) }
 	default:
@@ -275,7 +279,7 @@ func (f *c18Fn) Calculate(params []*variants.Variant, ops variants.IVariantOpera
 	return variants.VariantFromInteger(f.id), nil
 }
 
-func c18Collections(kind string, ops []Op, run *Run, out *Outcome) int {
+func c18Collections(kind string, ops []Op, run *Run, out *Outcome, stride int) int {
 	changes := 0
 	vc := variables.NewVariableCollection()
 	fc := functions.NewFunctionCollection()
@@ -458,6 +462,17 @@ func c18Collections(kind string, ops []Op, run *Run, out *Outcome) int {
 				model[j].val = VNull()
 			}
 			changes++
+		case "mutvalue":
+			// the value object of one entry is changed in place (through Value()), not replaced
+			if !isVar || o.V == nil {
+				continue
+			}
+			if j := c18Find(model, o.S); j >= 0 {
+				vc.FindByName(o.S).Value().Assign(o.V.ToVariant())
+				model[j].val = *o.V
+				changes++
+				out.Probes["value_object_changed_in_place"]++
+			}
 		case "setvalue":
 			if !isVar || o.V == nil {
 				continue
@@ -472,6 +487,9 @@ func c18Collections(kind string, ops []Op, run *Run, out *Outcome) int {
 		}
 		out.Event("%s %s %d", o.Op, o.S, o.I)
 		out.State(kind, len(model), o.Op)
+		if !Observe(stride, i, len(ops)) {
+			continue
+		}
 		if !compare(i, o) {
 			return changes
 		}
